@@ -123,6 +123,25 @@ Theorem C16_each_interaction_once_har : forall sanitize preserve h,
 Proof. exact once_har. Qed.
 Print Assumptions C16_each_interaction_once_har.
 
+(* the reason for HAR: _extract_cookies hands SimpleCookie single characters, which never form a key=value pair,
+   so no CookieError can escape (and the cookies lists of the HAR file are always empty) *)
+Theorem C16_har_cookie_pieces_never_raise : forall values, existsb cookie_error (flat_map pieces_now values) = false.
+Proof. exact cookies_never_raise. Qed.
+Print Assumptions C16_har_cookie_pieces_never_raise.
+
+Theorem C16_har_cookies_always_empty : forall name d, har_cookies name d = [].
+Proof. exact har_cookies_empty. Qed.
+Print Assumptions C16_har_cookies_always_empty.
+
+(* sentinel: a comprehension repaired to iterate over header values (seeded C16_b) lets CookieError escape for a
+   cookie named tenant/id when sanitization is off; the code as it is does not *)
+Theorem C16_whole_value_cookies_would_raise :
+  written_whole {| w_fmt := HAR; w_sanitize := false; w_preserve := false |} [CScenario [i_plain 1; i_cookie 2 c_tenant; i_plain 3]] = ([(1, true)], Died)
+  /\ written_whole {| w_fmt := HAR; w_sanitize := true; w_preserve := false |} [CScenario [i_plain 1; i_cookie 2 c_tenant; i_plain 3]] = (complete [1; 2; 3], Closed)
+  /\ written {| w_fmt := HAR; w_sanitize := false; w_preserve := false |} [CScenario [i_plain 1; i_cookie 2 c_tenant; i_plain 3]] = (complete [1; 2; 3], Closed).
+Proof. exact whole_value_cookies_would_raise. Qed.
+Print Assumptions C16_whole_value_cookies_would_raise.
+
 (* VCR: the same, unless a response names a codec that exists and raises on decode (commit ad7dc72b made
    unknown charsets harmless) *)
 Theorem C16_each_interaction_once_partial : forall sanitize preserve h, no_raising_codec h = true ->
